@@ -61,6 +61,8 @@ class Check:
         self.cov['solver_s'] += st.get('time', 0.0)
         self.nqueries += st.get('queries', 0)
         self.hashes |= solver.hashes
+        self.note_cross(getattr(solver, 'cross', None))
+        solver.cross = {'agree': 0, 'inconclusive': 0, 'disagree': []}
         for s in solver.samples:
             if len(self.samples) < 24:
                 self.samples.append(s)
@@ -94,6 +96,17 @@ class Check:
             self.undecided.append(u)
         for b in w.get('broken', []):
             self.broken.append(b)
+        self.note_cross(w.get('cvc5'))
+
+    def note_cross(self, c):
+        if not c:
+            return
+        x = self.cov.setdefault('cvc5_second_opinion', {'agree': 0, 'inconclusive': 0, 'disagree': 0})
+        x['agree'] += c['agree']
+        x['inconclusive'] += c['inconclusive']
+        x['disagree'] += len(c['disagree'])
+        for dgr in c['disagree']:
+            self.broken_q('z3 and cvc5 disagree on a dumped query: %r' % (dgr,))
 
     candidates = None
 
@@ -171,7 +184,7 @@ class Check:
 def worker_result(solver, ex_stats_list, **kw):
     d = {'queries': {k: solver.stats.get(k, 0) for k in ('sat', 'unsat', 'unknown')}, 'solver_s': solver.stats.get('time', 0.0),
          'nqueries': solver.stats.get('queries', 0), 'hashes': list(solver.hashes), 'samples': solver.samples,
-         'paths': sum(s['paths'] for s in ex_stats_list), 'ir_instructions': sum(s['steps'] for s in ex_stats_list)}
+         'paths': sum(s['paths'] for s in ex_stats_list), 'ir_instructions': sum(s['steps'] for s in ex_stats_list), 'cvc5': solver.cross}
     d.update(kw)
     return d
 
